@@ -64,7 +64,7 @@ var texts = []string{"hello", "Ana are mere", "<p>some <b>html</b></p>", "x", "t
 	// a paragraph: longer than any buffer, preview or cut-off a helper might apply (64, 128 bytes)
 	"a line\u2028separator and a paragraph\u2029separator", "a replacement \ufffd character",
 	"A longer paragraph of text, the kind a post usually holds: it runs past sixty-four bytes, past one hundred and twenty-eight bytes too, and ends with a full stop."}
-var mimeTypes = []string{"text/html", "text/plain", "image/png"}
+var mimeTypes = []string{"text/html", "text/plain", "image/png", "text/markdown; charset=\"utf-8\"", "application/ld+json; profile=\"https://www.w3.org/ns/activitystreams\""}
 
 func (g *GenCfg) genNLV(r *RNG) []interface{} {
 	n := 1
